@@ -43,6 +43,15 @@ func init() {
 				k, kind := (idx/4)%8+1, []string{"err", "uncertain-applied", "uncertain-lost"}[(idx/32)%3]
 				sc.Class = "writers+one-fault-at-commit-k"
 				sc.Plan = append(sc.Plan, &simkv.Fault{Op: "commit", Class: "data", Nth: k, Effect: kind})
+				if (idx/4)%2 == 1 && kind == "uncertain-applied" {
+					// ... and the repair write of the retry loop, which allocates a revision too, fails
+					sc.Class = "writers+unknown-outcome-then-failing-repair"
+					sc.Plan = append(sc.Plan, &simkv.Fault{Op: "commit", Class: "data", Who: "retry.tick", Nth: 1, Effect: []string{"err", "uncertain-lost"}[(idx/8)%2]})
+					for i := range sc.Clients {
+						sc.Clients[i].Ops = append(sc.Clients[i].Ops, world.Op{K: "sleep", Ms: 7000})
+					}
+					sc.Extra = map[string]int64{"keep_faults": 1}
+				}
 			}
 			return sc
 		},
